@@ -102,12 +102,17 @@ CLAIMED = {
          "integers), C14_enum_rt (any member name that is listed and non-empty, and the empty choice) with the premises checked in the "
          "kernel for every member of every enumeration of the code base (C14_enum_members_ok, C14_every_member_reads_back), C14_money_rt "
          "(a value with p decimal places, as a scaled integer, through sign / integer part / p fraction digits - all p, all magnitudes). "
-         "The character-level float formatting and binary64 are not modelled: instead every generated extreme (all places settings, -0.0, "
-         "5e-324, 1e22, ties) and every value of every explored real solution goes through the REAL chain to_string -> ConfigParser.write "
-         "-> file -> read -> PDFFiller._read_form_fields and is compared bit for bit (enumerations by member, text up to surrounding white "
-         "space per line, tax year).",
+         "The float text is a theorem too (coq/FloatText.v, C14_float_text_roundtrip): with binary64 round-to-nearest-even modelled over exact "
+         "rationals (dbl: 53 significant bits, subnormal floor), a stored money value v - the double nearest to a p-place decimal k/10^p, which "
+         "is what round(x, p) returns - is written by f'{v:.{p}f}' with exactly the digits k, and float(text) followed by round(_, p) gives back "
+         "the same double, whenever doubles near it are closer together than 10^-p; the guard is proved for every amount below 2^46 dollars at two "
+         "places, 2^36 at five, 2^52 at none (C14_float_text_guard_*). The model is executed in the kernel and compared with CPython's "
+         "float()/format() and the real FloatField on seeded and boundary cases on every run (inside and beyond the guard). In addition every "
+         "generated extreme (all places settings, -0.0, 5e-324, 1e22, ties) and every value of every explored real solution goes through the REAL "
+         "chain to_string -> ConfigParser.write -> file -> read -> PDFFiller._read_form_fields and is compared bit for bit (enumerations by member, "
+         "text up to surrounding white space per line, tax year).",
     design_ref='DESIGN.md §4 C14',
-    note="Float text round trip is decided by exploration of the real chain, not by theorem (stated). configparser is trusted; one open finding: "
+    note="The float theorem is about correctly rounded conversions (what CPython's dtoa/strtod guarantee), tied by execution, not about the C code; beyond the guard (7e13 dollars and more) the digits do change and only the exploration speaks. configparser is trusted; one open finding: "
          "a continuation line starting with '#'/';' is dropped. Print Assumptions: closed under the global context.",
     technique='Rocq round-trip proofs per type + real writer/reader chain on generated extremes and real solutions',
  ),
